@@ -123,8 +123,9 @@ impl Shape {
         if wa != wb {
             cx.count("stores with opening and closing markers of different lengths");
         }
-        let (ml, mr) = *cx.rng.pick(gen::MARKERS);
-        let st_m = if self.0 == Which::Titles { Some(St::build(lang, &recs, limit, (ml, mr))) } else { None };
+        let (mut ml, mut mr) = *cx.rng.pick(gen::MARKERS);
+        let mut st_m = if self.0 == Which::Titles { Some(St::build(lang, &recs, limit, (ml, mr))) } else { None };
+        let mut prev_q: Option<String> = None;
         let toks: Vec<TextOwn> = recs.iter().map(|r| st.tok_record(&r.1)).collect();
         let rgrams: Vec<BTreeSet<oracle::Gram>> = toks.iter().map(oracle::grams_of).collect();
         for qk in 0..8 {
@@ -137,6 +138,21 @@ impl Shape {
             } else {
                 shape_query(&mut cx.rng, lang, &st.store.lang, &recs, self.0)
             };
+            // half-way, the marker store gets another marker pair and the previous query again (output kept from
+            // the search before the change would show)
+            let q = if qk == 4 && self.0 == Which::Titles {
+                let (a, b) = *cx.rng.pick(gen::MARKERS);
+                ml = a;
+                mr = b;
+                if let Some(m) = st_m.as_mut() {
+                    m.store.highlight_with((ml, mr));
+                }
+                cx.count("marker pair changed between two searches of the same query");
+                prev_q.clone().unwrap_or(q)
+            } else {
+                q
+            };
+            prev_q = Some(q.clone());
             cx.ctx(format!("lang={} records={} limit={} q={:?} markers=({:?},{:?})", lang, recs.len(), limit, q, ml, mr));
             let hits = st.search(&q);
             let hits: Hits = if wa == 1 && wb == 1 { hits } else { hits.into_iter().map(|(id, t)| (id, t.replace(&wide_l, &S1.to_string()).replace(&wide_r, &S2.to_string()))).collect() };
